@@ -650,6 +650,13 @@ def cmp(op, a, b):
                 return a is not b if (a is None or b is None or isinstance(a, bool)) else a != b
         except TypeError:
             pass
+    if op in ("eq", "ne") and isinstance(a, (list, tuple)) and isinstance(b, (list, tuple)) and type(a) is type(b) and \
+            not (a and isinstance(a[0], str) and a[0].startswith("#")) and not (b and isinstance(b[0], str) and b[0].startswith("#")):
+        # two sequences of known structure: equal iff same length and equal element by element
+        if len(a) != len(b):
+            return op == "ne"
+        same = land([cmp("eq", x, y) for x, y in zip(a, b)])
+        return same if op == "eq" else lnot(same)
     if op in ("eq", "ne") and b in (0, 1) and not isinstance(b, bool) and isinstance(a, T) and a.op == "mod" and a.args[1] == 2:
         # parity tests: x % 2 == 1, x % 2 != 0 and bool(x % 2) are one term; == 0 / != 1 its negation
         odd = truth(a)
@@ -854,6 +861,16 @@ def ite(c, a, b):
         return c
     if a is False and b is True:
         return lnot(c)
+    if c.ty == BOOL or c.op in ("cmp", "not", "truth", "land", "lor"):
+        # a flag set under a condition: (True if c else b) is c or b, ... -- for boolean-valued b
+        if a is True and isinstance(b, T) and b.ty == BOOL:
+            return lor([c, b])
+        if b is False and isinstance(a, T) and a.ty == BOOL:
+            return land([c, a])
+        if a is False and isinstance(b, T) and b.ty == BOOL:
+            return land([lnot(c), b])
+        if b is True and isinstance(a, T) and a.ty == BOOL:
+            return lor([lnot(c), a])
     if isinstance(b, T) and b.op == "ite" and veq(b.args[0], c):
         return ite(c, a, _unfz1(b.args[2]))
     if isinstance(a, T) and a.op == "ite" and veq(a.args[0], c):
